@@ -484,6 +484,94 @@ def getpw_name_sites(db, rep):
     return {'getpw:name-copy-and-its-NUL-stay-inside-username[]': (bad is None, 'qmail-getpw.c:userext', bad[0] if bad else '%d local parts' % nrun, bad[1] if bad else [])}
 
 
+class GrowHooks(_libtab.SAConc, _libtab.Conc):
+    """a reserve routine (X_ready / X_readyplus) on concrete counts near the 32-bit limits: what is asked of the allocator and what capacity is recorded"""
+    def __init__(self, entry):
+        _libtab.Conc.__init__(self, entry)
+        self.allocs = []
+
+    def _width(self, x):
+        t = (x.args[2].type or '') if len(x.args) > 2 and x.args[2] is not None else ''
+        return 64 if 'long' in t or 'size_t' in t else 32
+
+    def _ovf(self, E, x, args, op):
+        a_, b_, p_ = (_libtab._one(v) for v in args[:3])
+        if not (isinstance(a_, int) and isinstance(b_, int) and isinstance(p_, tuple) and p_[0] == '&'):
+            raise AnalysisBroken('%s: overflow builtin on undetermined operands' % x.where)
+        w = self._width(x)
+        r_ = op(a_, b_)
+        return [Outcome(ret=fs(int(not 0 <= r_ < (1 << w))), sets={p_[1]: fs(r_ & ((1 << w) - 1))})]
+
+    def prim___builtin_mul_overflow(self, E, x, args):
+        return self._ovf(E, x, args, lambda u, v: u * v)
+
+    def prim___builtin_add_overflow(self, E, x, args):
+        return self._ovf(E, x, args, lambda u, v: u + v)
+
+    def _alloc(self, E, x, args):
+        self.allocs.append(_libtab._one(args[-1]))
+        return [Outcome(ret=fs(('&', 'NEW[0]')))]
+
+    prim_malloc = prim_realloc = prim_alloc = prim_alloc_re = _alloc
+
+
+def growth_sites(db, rep):
+    """every reserve routine of the package, explored on concrete counts: a successful return means the recorded capacity covers the request and the
+    allocator was asked for exactly capacity x element size bytes (as integers, not modulo 2^32); a request that cannot be represented fails"""
+    table = [('qmail-send', 'stralloc_eady.c', 'stralloc_readyplus', True), ('qmail-send', 'stralloc_eady.c', 'stralloc_ready', False),
+             ('qmail-send', 'prioq.c', 'prioq_readyplus', True), ('qmail-inject', 'token822.c', 'token822_readyplus', True),
+             ('qmail-inject', 'token822.c', 'token822_ready', False), ('qmail-remote', 'ipalloc.c', 'ipalloc_readyplus', True),
+             ('qmail-inject', 'qmail-inject.c', 'saa_readyplus', True), ('qmail-remote', 'qmail-remote.c', 'saa_readyplus', True)]
+    out = {}
+    for pname, unit, fname, plus in table:
+        prog = db.program(pname)
+        fn = prog.fn(fname, unit)
+        rec = db.unit(unit)
+
+        def run_one(has, ln, cap, n):
+            H = GrowHooks(fname)
+            st = {0: fs(('&', 'X')), 1: fs(n), 'X.len': fs(ln), 'X.a': fs(cap)}
+            names = []
+            # the buffer field is the record's pointer field: every pointer-typed field is set (there is one)
+            st['$has'] = fs(has)
+            H.materialize = lambda E, path, has=has: (fs(('&', 'OLD[0]')) if has else fs(0)) if path.startswith('X.') and path not in ('X.len', 'X.a') else TOP
+            _libtab._run_conc(db, rep, prog, fn, st, fname, H)
+            if len(H.ends) != 1:
+                raise AnalysisBroken('%s: %d ends for (allocated=%s, len=%s, a=%s, n=%s)' % (fname, len(H.ends), has, ln, cap, n))
+            store, val, tr = H.ends[0]
+            return _libtab.one(val), _libtab._one(store.get('X.a')), H.allocs, tr
+        r0 = run_one(0, 0, 0, 1)
+        if r0[0] != 1 or len(r0[2]) != 1 or not isinstance(r0[2][0], int) or r0[2][0] < 1:
+            raise AnalysisBroken('%s: the first allocation of one element was not observed (%s)' % (fname, r0[:3]))
+        esz = r0[2][0]
+        bad = None
+        n_runs = 0
+        big = [0xfffffff0, 0x80000000, 0xffffffff, (0xffffffff // esz) + 1, (0xffffffff // esz) - 2, 0xe0000000 // esz]
+        for has, ln, cap, n in [(0, 0, 0, 10), (0, 7, 9, 10), (1, 5, 8, 10), (1, 5, 40, 10), (1, 0, 0, 1), (1, 100, 100, 1), (1, 0xfffffff0, 0xfffffff8, 0x20), (1, 3, 3, 0xfffffffe)] + \
+                [(h_, l_, l_, b_) for h_ in (0, 1) for l_ in (0, 9) for b_ in big]:
+            ret, a_, allocs, tr = run_one(has, ln, cap, n)
+            n_runs += 1
+            need = n + (ln if plus and has else 0)          # nothing allocated yet: the old length is meaningless
+            what = '%s(x, %d) with the buffer %s, len = %d, a = %d' % (fname, n, 'allocated' if has else 'not allocated', ln, cap)
+            why = None
+            if ret == 1:
+                if not isinstance(a_, int) or a_ < need:
+                    why = 'succeeds and records room for %s elements; %d are needed' % (a_, need)
+                elif allocs and (len(allocs) != 1 or allocs[0] != a_ * esz):
+                    why = 'succeeds, records room for %d elements of %d bytes and asks the allocator for %s bytes (documented %d)' % (a_, esz, allocs, a_ * esz)
+                elif not allocs and not (has and cap >= need):
+                    why = 'succeeds without allocating although a = %d does not cover %d' % (cap, need)
+            elif ret == 0:
+                if (need + (need >> 3) + 200) * esz < (1 << 31):
+                    why = 'fails although %d elements of %d bytes can be allocated' % (need, esz)
+            else:
+                why = 'returns %s' % (ret,)
+            if why and bad is None:
+                bad = (what + ' ' + why, tr)
+        out['%s:capacity-covers-the-request,allocation=capacity-x-size,no-wrap' % fname] = (bad is None, '%s:%s' % (unit, fname), bad[0] if bad else '%d requests, element size %d' % (n_runs, esz), bad[1] if bad else [])
+    return out
+
+
 def run(ctx):
     db, rep = ctx.db, ctx.report
     # ---------------------------------------------------------------- 1. reserve contracts (linear symbolic)
@@ -516,27 +604,9 @@ def run(ctx):
     r1.expect_min(8)
 
     # ---------------------------------------------------------------- 2. growth arithmetic
-    r2 = rep.rule('C20.2-growth-arithmetic', 'R-GUARD', 'every size reaching malloc/realloc in the growth helpers is the checked result of __builtin_*_overflow (failure edge returns), and the recorded capacity is the count actually allocated')
-    n = 0
-    for unit in ('stralloc_eady.c', 'prioq.c', 'token822.c', 'ipalloc.c', 'qmail-inject.c', 'qmail-remote.c'):
-        for fn in db.unit(unit).functions.values():
-            if not fn.name.endswith('_internal'):
-                continue
-            for c in fn.calls(('malloc', 'realloc')):
-                n += 1
-                sz = c.args[-1]
-                v = sz.var
-                ok = False
-                for o in fn.calls(('__builtin_mul_overflow', '__builtin_add_overflow')):
-                    out = o.args[2].strip()
-                    if out.k == 'un' and out.op == '&' and out.args[0].var == v and fn.dominates(o, c):
-                        # the allocation is on the no-overflow edge
-                        if any(cc.strip().id == o.id and t is False for cc, t in fn.guards(c) or []) or \
-                                any(o.id in {y.id for y in cc.walk()} and t is False for cc, t in fn.guards(c) or []):
-                            ok = True
-                r2.check(ok, '%s:%s-size-is-overflow-checked' % (fn.name, c.callee), c.where, 'allocation size %s is not the checked output of an overflow builtin' % sz.src())
-    if n < 10:
-        raise AnalysisBroken('growth helpers: only %d allocation sites found' % n)
+    r2 = rep.rule('C20.2-growth-arithmetic', 'R-GUARD', 'every reserve routine explored on concrete counts up to the 32-bit limits: success means the recorded capacity covers the request and the allocator was asked for capacity x element size bytes without wrap-around; callers reserve n+1 with an overflow check')
+    for inst_, v_ in sorted(growth_sites(db, rep).items()):
+        r2.check(v_[0], inst_, v_[1], v_[2], v_[3])
     for unit, fname in (('stralloc_catb.c', 'stralloc_catb'), ('stralloc_opyb.c', 'stralloc_copyb')):
         fn = db.fn(unit, fname)
         res = [c for c in fn.calls() if c.callee and (c.callee.endswith('_readyplus') or c.callee.endswith('_ready'))]
@@ -558,7 +628,7 @@ def run(ctx):
         outs = [o for o in dt.calls(('__builtin_mul_overflow', '__builtin_add_overflow')) if o.args[2].strip().k == 'un' and o.args[2].strip().args[0].var == v and dt.dominates(o, res[0])]
         okq = len(outs) >= 2
     r2.check(okq, 'quote.doit:2*len+2-overflow-checked', 'quote.c:doit', '')
-    r2.expect_min(12)
+    r2.expect_min(10)
 
     # ---------------------------------------------------------------- 3. buffer/length pairing
     r3 = rep.rule('C20.3-buffer-length-pairing', 'R-SIBLING', 'wherever a declared array is handed to a reader/formatter together with a constant length, the length does not exceed the array (whole repository)')
